@@ -5,14 +5,15 @@ from vsym.core import SR, Fraction, cfrac
 
 PROP = 'C17'
 BATCH = 4
-BOUNDS = dict(dc=[1.0, 1.5, 0.37], dc_unit=['nanometer', 'angstrom'], ec=[[2.48, 'kilojoule/mole'], [1.0, 'kilocalorie/mole'], [4.1e-21, 'joule']], x='any real scalar; 2-element arrays', diameter='any positive real (toVolumeFraction)')
+BOUNDS = dict(dc=[1.0, 1.5, 0.37], dc_unit=['nanometer', 'angstrom'], ec=[[2.48, 'kilojoule/mole'], [1.0, 'kilocalorie/mole'], [4.1e-21, 'joule'], [2.48, 'kJ/mol'], [1.0, 'kcal/mol'], [0.0103235, 'eV']], x='any real scalar; 2-element arrays', diameter='any positive real (toVolumeFraction)')
 OUTSIDE = ['unit strings other than the listed ones (they go through pint\'s parser and are concrete)', 'mc (no documented conversion uses it)']
 ASSUMPTIONS = ['reference constants carried by the harness: k_B = 1.380649e-23 J/K, N_A = 6.02214076e23 /mol (SI 2019, exact), 1 kcal = 4184 J, 0 degC = 273.15 K; agreement is required to 1e-9 relative',
                'pint multiplies an unknown magnitude type through (the symbolic scalar takes the place of the float); coefficients are extracted from the returned term by evaluating it at 0 and 1 and the solver proves the term equals a*x+b for all x']
 
 KB = Fraction('1.380649e-23'); NA = Fraction('6.02214076e23')
 LEN = {'nanometer': Fraction(1, 10 ** 9), 'angstrom': Fraction(1, 10 ** 10)}
-EN = {'kilojoule/mole': (Fraction(1000), True), 'kilocalorie/mole': (Fraction(4184), True), 'joule': (Fraction(1), False)}
+EN = {'kilojoule/mole': (Fraction(1000), True), 'kilocalorie/mole': (Fraction(4184), True), 'joule': (Fraction(1), False),
+      'kJ/mol': (Fraction(1000), True), 'kcal/mol': (Fraction(4184), True), 'eV': (Fraction('1.602176634e-19'), False)}
 METHODS = ['toKelvin', 'toCelcius', 'toInvAngstrom', 'toInvNanometer', 'toConcentration', 'toVolumeFraction']
 
 
